@@ -84,6 +84,9 @@ pub fn check(e: &Exec) -> Verdict {
             // a panic raised by the harness itself decides nothing
             inc.push(format!("harness panic: {}", short(msgs)));
         }
+        Err(_) if e.case.spawn_fail && e.spawn_fault_engaged => {
+            // thread creation was made to fail: panicking is an acceptable outcome
+        }
         Err(msgs) => {
             if !faulty || e.injected == 0 {
                 // a panic nobody injected
